@@ -77,6 +77,8 @@ def parse_type(s: str) -> Ty:
             return T_BOOL
         if name == 'none':
             return T_NONE
+        if name == 'dropped':
+            return Ty('dropped')
         if name == 'opaque':
             if pos[0] < len(s) and s[pos[0]] == ':':
                 pos[0] += 1
@@ -270,6 +272,8 @@ def fresh(ty: Ty, name: str, dims: int = 0) -> V:
                     nullable=getattr(ty, 'nullable', False))
     if k == 'none':
         return VNone()
+    if k == 'dropped':
+        return VOpaque(None, 'dropped')     # printers / formatters: calls on them are dropped by extraction
     if k == 'opaque':
         return VOpaque(getattr(ty, 'tag', None), 'opaque')
     raise Unsupported(f"fresh of type {ty!r}")
